@@ -19,6 +19,7 @@
 // members: operator[], the pointer view and the constructors are operations under test.
 #pragma once
 #include <cmath>
+#include <cstring>
 #include <functional>
 #include <sstream>
 #include <string>
@@ -118,6 +119,7 @@ struct VX<vec_t<T, 2>>
   }
   static V comps(const Json &a) { return V(sIn<T>(a[(size_t)0]), sIn<T>(a[(size_t)1])); }
   static T get(const V &v, int i) { return i == 0 ? v.x : v.y; }
+  static void set(V &v, int i, T s) { (i == 0 ? v.x : v.y) = s; }
 };
 template <typename T, bool A>
 struct VX<vec_t<T, 3, A>>
@@ -143,6 +145,7 @@ struct VX<vec_t<T, 3, A>>
   }
   static V comps(const Json &a) { return V(sIn<T>(a[(size_t)0]), sIn<T>(a[(size_t)1]), sIn<T>(a[(size_t)2])); }
   static T get(const V &v, int i) { return i == 0 ? v.x : i == 1 ? v.y : v.z; }
+  static void set(V &v, int i, T s) { (i == 0 ? v.x : i == 1 ? v.y : v.z) = s; }
 };
 template <typename T>
 struct VX<vec_t<T, 4>>
@@ -173,6 +176,7 @@ struct VX<vec_t<T, 4>>
     return V(sIn<T>(a[(size_t)0]), sIn<T>(a[(size_t)1]), sIn<T>(a[(size_t)2]), sIn<T>(a[(size_t)3]));
   }
   static T get(const V &v, int i) { return i == 0 ? v.x : i == 1 ? v.y : i == 2 ? v.z : v.w; }
+  static void set(V &v, int i, T s) { (i == 0 ? v.x : i == 1 ? v.y : i == 2 ? v.z : v.w) = s; }
 };
 template <class V>
 inline Json outv(const V &v)
@@ -782,6 +786,375 @@ static void convShapes(int n, const Json &arg, Json &o)
   }
 }
 
+// ---- group "lift": the lifting law on GENERAL operands (validated by VecLiftValidate) -------------------------
+// For every operator and overload family the driver records (v) the components of the vector operator's result and
+// (s) the result of the corresponding C++ SCALAR operator / function applied to each component pair, both as bit
+// patterns cut into 16-bit pieces (most significant first).  Both are observations; TLC judges v = s.
+template <typename T>
+inline T gIn(const Json &j)
+{
+  return std::is_floating_point<T>::value ? (T)j.dbl() : (T)j.num();
+}
+template <class V>
+inline V mkG(const Json &a)
+{
+  V v;
+  for (int i = 0; i < (int)VX<V>::N; ++i) VX<V>::set(v, i, gIn<typename VX<V>::S>(a[(size_t)i]));
+  return v;
+}
+template <typename R>
+inline void pushBits(Json &j, R x)
+{
+  unsigned char raw[sizeof(R)];
+  std::memcpy(raw, &x, sizeof(R));
+  if (sizeof(R) == 1) {
+    j.push(Json((long long)raw[0]));
+    return;
+  }
+  for (int k = (int)sizeof(R) - 2; k >= 0; k -= 2) j.push(Json((long long)(raw[k] | (raw[k + 1] << 8))));  // little endian host
+}
+template <class VR>
+inline Json bitsv(const VR &v)
+{
+  Json j = Json::array();
+  for (int i = 0; i < (int)VX<VR>::N; ++i) pushBits<typename VX<VR>::S>(j, VX<VR>::get(v, i));
+  return j;
+}
+inline void putLift(Json &o, const char *op, const std::string &fam, const Json &v, const Json &s)
+{
+  Json e = Json::object();
+  e.set("v", v);
+  e.set("s", s);
+  put(o, op, fam, e);
+}
+struct OpAdd
+{
+  static const char *nm() { return "add"; }
+  template <class X, class Y>
+  static auto ap(const X &x, const Y &y) -> decltype(x + y) { return x + y; }
+  template <class X, class Y>
+  static void as(X &x, const Y &y) { x += y; }
+};
+struct OpSub
+{
+  static const char *nm() { return "sub"; }
+  template <class X, class Y>
+  static auto ap(const X &x, const Y &y) -> decltype(x - y) { return x - y; }
+  template <class X, class Y>
+  static void as(X &x, const Y &y) { x -= y; }
+};
+struct OpMul
+{
+  static const char *nm() { return "mul"; }
+  template <class X, class Y>
+  static auto ap(const X &x, const Y &y) -> decltype(x * y) { return x * y; }
+  template <class X, class Y>
+  static void as(X &x, const Y &y) { x *= y; }
+};
+struct OpDiv
+{
+  static const char *nm() { return "div"; }
+  template <class X, class Y>
+  static auto ap(const X &x, const Y &y) -> decltype(x / y) { return x / y; }
+  template <class X, class Y>
+  static void as(X &x, const Y &y) { x /= y; }
+};
+struct OpMod
+{
+  static const char *nm() { return "mod"; }
+  template <class X, class Y>
+  static auto ap(const X &x, const Y &y) -> decltype(x % y) { return x % y; }
+  template <class X, class Y>
+  static void as(X &x, const Y &y) { x %= y; }
+};
+// one operator, every form, for a pair (VA, VB) of vector types (element types T, U may differ)
+template <class OP, class VA, class VB, bool ON>
+struct LiftBin
+{
+  typedef typename VX<VA>::S T;
+  typedef typename VX<VB>::S U;
+  enum { N = VX<VA>::N };
+  // vec op vec
+  static void vv(const VA &a, const VB &b, const std::string &fam, Json &o)
+  {
+    typedef decltype(OP::ap(a, b)) VR;
+    typedef typename VR::scalar_t R;
+    const VR r = OP::ap(a, b);
+    Json s = Json::array();
+    for (int i = 0; i < N; ++i) pushBits<R>(s, (R)OP::ap(VX<VA>::get(a, i), VX<VB>::get(b, i)));
+    putLift(o, OP::nm(), fam, bitsv(r), s);
+  }
+  // vec op scalar (scalar of type U)
+  static void vs(const VA &a, const U &c, const std::string &fam, Json &o)
+  {
+    typedef decltype(OP::ap(a, c)) VR;
+    typedef typename VR::scalar_t R;
+    const VR r = OP::ap(a, c);
+    Json s = Json::array();
+    for (int i = 0; i < N; ++i) pushBits<R>(s, (R)OP::ap(VX<VA>::get(a, i), c));
+    putLift(o, OP::nm(), fam, bitsv(r), s);
+  }
+  // scalar (type U) op vec<T>
+  static void sv(const U &c, const VA &b, const std::string &fam, Json &o)
+  {
+    typedef decltype(OP::ap(c, b)) VR;
+    typedef typename VR::scalar_t R;
+    const VR r = OP::ap(c, b);
+    Json s = Json::array();
+    for (int i = 0; i < N; ++i) pushBits<R>(s, (R)OP::ap(c, VX<VA>::get(b, i)));
+    putLift(o, OP::nm(), fam, bitsv(r), s);
+  }
+  // vec op= vec, vec op= scalar: the scalar compound assignment on every component
+  static void cavv(const VA &a, const VB &b, const std::string &fam, Json &o)
+  {
+    VA t = a;
+    OP::as(t, b);
+    Json s = Json::array();
+    for (int i = 0; i < N; ++i) {
+      T x = VX<VA>::get(a, i);
+      OP::as(x, VX<VB>::get(b, i));
+      pushBits<T>(s, x);
+    }
+    putLift(o, OP::nm(), fam, bitsv(t), s);
+  }
+  static void cavs(const VA &a, const U &c, const std::string &fam, Json &o)
+  {
+    VA t = a;
+    OP::as(t, c);
+    Json s = Json::array();
+    for (int i = 0; i < N; ++i) {
+      T x = VX<VA>::get(a, i);
+      OP::as(x, c);
+      pushBits<T>(s, x);
+    }
+    putLift(o, OP::nm(), fam, bitsv(t), s);
+  }
+};
+template <class OP, class VA, class VB>
+struct LiftBin<OP, VA, VB, false>
+{
+  typedef typename VX<VB>::S U;
+  static void vv(const VA &, const VB &, const std::string &, Json &) {}
+  static void vs(const VA &, const U &, const std::string &, Json &) {}
+  static void sv(const U &, const VA &, const std::string &, Json &) {}
+  static void cavv(const VA &, const VB &, const std::string &, Json &) {}
+  static void cavs(const VA &, const U &, const std::string &, Json &) {}
+};
+// which operators are recorded for an (element type, other type) pair: + - * where the common type is floating point
+// (integer + - * can overflow: undefined for int32 / int64), / always, % for two integral types
+template <typename T, typename U>
+struct LiftOn
+{
+  static const bool flt = std::is_floating_point<T>::value || std::is_floating_point<U>::value;
+  static const bool mod = std::is_integral<T>::value && std::is_integral<U>::value;
+  // op= of a floating-point value into an integer element: the conversion back can be out of range (undefined): not recorded
+  static const bool ca = !(std::is_integral<T>::value && std::is_floating_point<U>::value);
+};
+template <class VA, class VB>
+static void liftArith(const VA &a, const VB &b, const typename VX<VB>::S &c, const VA &bt, const std::string &m, const std::string &mp2,
+                      bool plain, bool div, Json &o)
+{
+  typedef typename VX<VA>::S T;
+  typedef typename VX<VB>::S U;
+  typedef LiftOn<T, U> On;
+  // m: suffix of the vs / sv / compound-scalar families, mp2: suffix of the vec-vec families
+  if (plain) {
+    LiftBin<OpAdd, VA, VB, On::flt>::vv(a, b, "vv" + mp2, o);
+    LiftBin<OpSub, VA, VB, On::flt>::vv(a, b, "vv" + mp2, o);
+    LiftBin<OpMul, VA, VB, On::flt>::vv(a, b, "vv" + mp2, o);
+    LiftBin<OpAdd, VA, VB, On::flt && On::ca>::cavv(a, b, "vv.ca" + mp2, o);
+    LiftBin<OpSub, VA, VB, On::flt && On::ca>::cavv(a, b, "vv.ca" + mp2, o);
+    LiftBin<OpMul, VA, VB, On::flt && On::ca>::cavv(a, b, "vv.ca" + mp2, o);
+  }
+  if (div) {
+    LiftBin<OpDiv, VA, VB, true>::vv(a, b, "vv" + mp2, o);
+    LiftBin<OpMod, VA, VB, On::mod>::vv(a, b, "vv" + mp2, o);
+    LiftBin<OpDiv, VA, VB, On::ca>::cavv(a, b, "vv.ca" + mp2, o);
+    LiftBin<OpMod, VA, VB, On::mod>::cavv(a, b, "vv.ca" + mp2, o);
+  }
+  if (m.empty() && mp2.size() && VX<VA>::P != VX<VB>::P) return;  // scalar forms once per vector type (not for mixed padding)
+  if (plain) {
+    LiftBin<OpAdd, VA, VB, On::flt>::vs(a, c, "vs" + m, o);
+    LiftBin<OpSub, VA, VB, On::flt>::vs(a, c, "vs" + m, o);
+    LiftBin<OpMul, VA, VB, On::flt>::vs(a, c, "vs" + m, o);
+    LiftBin<OpAdd, VA, VB, On::flt>::sv(c, bt, "sv" + m, o);
+    LiftBin<OpSub, VA, VB, On::flt>::sv(c, bt, "sv" + m, o);
+    LiftBin<OpMul, VA, VB, On::flt>::sv(c, bt, "sv" + m, o);
+    LiftBin<OpAdd, VA, VB, On::flt && On::ca>::cavs(a, c, "vs.ca" + m, o);
+    LiftBin<OpSub, VA, VB, On::flt && On::ca>::cavs(a, c, "vs.ca" + m, o);
+    LiftBin<OpMul, VA, VB, On::flt && On::ca>::cavs(a, c, "vs.ca" + m, o);
+  }
+  if (div) {
+    LiftBin<OpDiv, VA, VB, true>::vs(a, c, "vs" + m, o);
+    LiftBin<OpMod, VA, VB, On::mod>::vs(a, c, "vs" + m, o);
+    LiftBin<OpDiv, VA, VB, true>::sv(c, bt, "sv" + m, o);
+    LiftBin<OpMod, VA, VB, On::mod>::sv(c, bt, "sv" + m, o);
+    LiftBin<OpDiv, VA, VB, On::ca>::cavs(a, c, "vs.ca" + m, o);
+    LiftBin<OpMod, VA, VB, On::mod>::cavs(a, c, "vs.ca" + m, o);
+  }
+}
+// unary functors that exist for floating-point element types only
+template <typename T, class V, bool FLT = std::is_floating_point<T>::value>
+struct LiftFltUnary
+{
+  static void run(const V &a, const std::string &p, Json &o)
+  {
+    const int N = VX<V>::N;
+    Json s1 = Json::array(), s2 = Json::array(), s3 = Json::array(), s4 = Json::array();
+    for (int i = 0; i < N; ++i) {
+      const T x = VX<V>::get(a, i);
+      pushBits<T>(s1, rcp(x));
+      pushBits<T>(s2, rcp_safe(x));
+      pushBits<T>(s3, (T)sin(x));
+      pushBits<T>(s4, (T)cos(x));
+    }
+    putLift(o, "rcp", "r" + p, bitsv(rcp(a)), s1);
+    putLift(o, "rcp_safe", "r" + p, bitsv(rcp_safe(a)), s2);
+    putLift(o, "sin", "r" + p, bitsv(sin(a)), s3);
+    putLift(o, "cos", "r" + p, bitsv(cos(a)), s4);
+  }
+};
+template <typename T, class V>
+struct LiftFltUnary<T, V, false>
+{
+  static void run(const V &, const std::string &, Json &) {}
+};
+template <typename T, class V, bool OK = !(std::is_same<T, uint32_t>::value || std::is_same<T, uint64_t>::value)>
+struct LiftAbs
+{
+  static void run(const V &a, const std::string &p, Json &o)
+  {
+    Json s = Json::array();
+    for (int i = 0; i < (int)VX<V>::N; ++i) pushBits<T>(s, (T)abs(VX<V>::get(a, i)));
+    putLift(o, "abs", "r" + p, bitsv(abs(a)), s);
+  }
+};
+template <typename T, class V>
+struct LiftAbs<T, V, false>
+{
+  static void run(const V &, const std::string &, Json &) {}
+};
+// operations on two vectors of the same type + unary operators + comparisons
+template <typename T, class V>
+static void liftSame(const V &a, const V &b, bool div, Json &o)
+{
+  const int N = VX<V>::N;
+  const std::string p = pad1<V>(), p2 = pad2<V, V>();
+  Json smin = Json::array(), smax = Json::array(), sneg = Json::array(), spos = Json::array(), sdru = Json::array();
+  Json lt = Json::array(), eqs = Json::array(), nes = Json::array();
+  for (int i = 0; i < N; ++i) {
+    const T x = VX<V>::get(a, i), y = VX<V>::get(b, i);
+    pushBits<T>(smin, (T)min(x, y));
+    pushBits<T>(smax, (T)max(x, y));
+    pushBits<T>(sneg, (T)(-x));
+    pushBits<T>(spos, (T)(+x));
+    if (div) pushBits<T>(sdru, divRoundUp(x, y));
+    lt.push(Json(x < y));
+    eqs.push(Json(x == y));
+    nes.push(Json(x != y));
+  }
+  putLift(o, "min", "vv" + p2, bitsv(min(a, b)), smin);
+  putLift(o, "max", "vv" + p2, bitsv(max(a, b)), smax);
+  putLift(o, "neg", "r" + p, bitsv(-a), sneg);
+  putLift(o, "pos", "r" + p, bitsv(+a), spos);
+  if (div && std::is_integral<T>::value) putLift(o, "dru", "vv" + p2, bitsv(divRoundUp(a, b)), sdru);
+  LiftAbs<T, V>::run(a, p, o);
+  LiftFltUnary<T, V>::run(a, p, o);
+  Json c = Json::object();
+  c.set("eq", Json(a == b));
+  c.set("ne", Json(a != b));
+  c.set("anylt", Json(anyLessThan(a, b)));
+  c.set("less", Json(std::less<V>()(a, b)));
+  c.set("lt", lt);
+  c.set("eqs", eqs);
+  c.set("nes", nes);
+  put(o, "_cmp", "vv" + p2, c);
+}
+template <typename T, typename U, int N, bool A>
+static void liftMixed(const Json &arg, bool div, Json &o)
+{
+  typedef vec_t<T, N, A> VT_;
+  typedef vec_t<U, N, A> VU_;
+  const bool ufl = std::is_floating_point<U>::value, tfl = std::is_floating_point<T>::value;
+  // operands of the other element type: the general ones if both types are floating point, otherwise the small integers bi / si
+  const char *kb = (ufl && tfl) ? "b" : "bi", *ks = (ufl && tfl) ? "s" : "si";
+  const VT_ a = mkG<VT_>(arg["a"]);
+  const VU_ b = mkG<VU_>(arg[kb]);
+  const VT_ bt = mkG<VT_>(arg["b"]);
+  const U c = gIn<U>(arg[ks]);
+  const std::string m = std::string(".mx_") + TN<U>::name() + pad1<VT_>();
+  liftArith<VT_, VU_>(a, b, c, bt, m, m, true, div, o);
+}
+template <typename T, int N, bool A, typename... Us>
+struct LiftMixedAll;
+template <typename T, int N, bool A>
+struct LiftMixedAll<T, N, A>
+{
+  static void run(const Json &, bool, Json &) {}
+};
+template <typename T, int N, bool A, typename U, typename... Us>
+struct LiftMixedAll<T, N, A, U, Us...>
+{
+  static void run(const Json &arg, bool div, Json &o)
+  {
+    liftMixed<T, U, N, A>(arg, div, o);
+    LiftMixedAll<T, N, A, Us...>::run(arg, div, o);
+  }
+};
+template <typename T, class VA, class VB>
+static void liftPair(const Json &arg, bool div, Json &o)
+{
+  const VA a = mkG<VA>(arg["a"]);
+  const VB b = mkG<VB>(arg["b"]);
+  const VA bt = mkG<VA>(arg["b"]);
+  const T c = gIn<T>(arg["s"]);
+  liftArith<VA, VB>(a, b, c, bt, VX<VA>::P == VX<VB>::P ? pad1<VA>() : std::string(), pad2<VA, VB>(), true, div, o);
+}
+// how many component pairs of the case have an inexact product / quotient (an observation about the INPUT, for the
+// vacuity guard: the law is only interesting where the scalar operator rounds)
+template <typename T, class V, bool FLT = std::is_floating_point<T>::value>
+struct Inexact
+{
+  static void run(const Json &arg, bool div, Json &o)
+  {
+    const V a = mkG<V>(arg["a"]), b = mkG<V>(arg["b"]);
+    const T c = gIn<T>(arg["s"]);
+    long long im = 0, id = 0, ids = 0;
+    for (int i = 0; i < (int)VX<V>::N; ++i) {
+      const T x = VX<V>::get(a, i), y = VX<V>::get(b, i);
+      const T pr = x * y;
+      if (std::isfinite((double)pr) && std::fma(x, y, -pr) != (T)0) ++im;
+      if (div) {
+        const T q = x / y, qs = x / c;
+        if (std::isfinite((double)q) && std::fma(q, y, -x) != (T)0) ++id;
+        if (std::isfinite((double)qs) && std::fma(qs, c, -x) != (T)0) ++ids;
+      }
+    }
+    Json j = Json::object();
+    j.set("mul", im);
+    j.set("div", id);
+    j.set("div_s", ids);
+    o.set("_inexact", j);
+  }
+};
+template <typename T, class V>
+struct Inexact<T, V, false>
+{
+  static void run(const Json &arg, bool div, Json &o)
+  {
+    const V a = mkG<V>(arg["a"]), b = mkG<V>(arg["b"]);
+    long long id = 0;
+    if (div)
+      for (int i = 0; i < (int)VX<V>::N; ++i)
+        if (VX<V>::get(a, i) % VX<V>::get(b, i) != 0) ++id;
+    Json j = Json::object();
+    j.set("mul", 0);
+    j.set("div", id);
+    j.set("div_s", id);
+    o.set("_inexact", j);
+  }
+};
+
 // ---- group "tol": results recorded as integers scaled by 2^18 (validated by VecTolValidate) --------------
 static const double TOL_SCALE = 262144.0;
 template <typename T>
@@ -1003,6 +1376,33 @@ struct TyOps : ITy
       if (n == 2) ternOps<T, V2>(arg, o);
       else if (n == 3) { ternOps<T, V3>(arg, o); ternOps<T, V3a>(arg, o); }
       else ternOps<T, V4>(arg, o);
+      return o;
+    }
+    if (a == "Lift") {
+      // general operands; "div": the second operand has no zero component (division, remainder, divRoundUp are recorded)
+      const int n = (int)arg["a"].size();
+      const bool div = arg["div"].boolean();
+      if (n == 2) {
+        liftPair<T, V2, V2>(arg, div, o);
+        liftSame<T, V2>(mkG<V2>(arg["a"]), mkG<V2>(arg["b"]), div, o);
+        LiftMixedAll<T, 2, false, Us...>::run(arg, div, o);
+        Inexact<T, V2>::run(arg, div, o);
+      } else if (n == 3) {
+        liftPair<T, V3, V3>(arg, div, o);
+        liftPair<T, V3, V3a>(arg, div, o);
+        liftPair<T, V3a, V3>(arg, div, o);
+        liftPair<T, V3a, V3a>(arg, div, o);
+        liftSame<T, V3>(mkG<V3>(arg["a"]), mkG<V3>(arg["b"]), div, o);
+        liftSame<T, V3a>(mkG<V3a>(arg["a"]), mkG<V3a>(arg["b"]), div, o);
+        LiftMixedAll<T, 3, false, Us...>::run(arg, div, o);
+        LiftMixedAll<T, 3, true, Us...>::run(arg, div, o);
+        Inexact<T, V3>::run(arg, div, o);
+      } else {
+        liftPair<T, V4, V4>(arg, div, o);
+        liftSame<T, V4>(mkG<V4>(arg["a"]), mkG<V4>(arg["b"]), div, o);
+        LiftMixedAll<T, 4, false, Us...>::run(arg, div, o);
+        Inexact<T, V4>::run(arg, div, o);
+      }
       return o;
     }
     if (a == "Mca") {
